@@ -156,9 +156,19 @@ class NodeWorld:
             return orig_rp()
         node._reconnect_peers = rp
         self.clients = []           # environment-side handles of accepted sockets
+        self.driver_failures = []   # exceptions escaping node calls made by the driver itself (node.start)
         if start:
-            node.start()
+            self.start_node()
             self.world.run()
+
+    def start_node(self):
+        """node.start() as the embedding program calls it; an exception escaping it is recorded like a dead thread."""
+        try:
+            self.node.start()
+        except sk.HarnessError:
+            raise
+        except Exception as e:
+            self.driver_failures.append(("driver:node.start", "driver", repr(e)))
 
     # ---------------------------------------------------------------- environment actions
     def accept(self, ip="10.0.0.2", port=5555, run=True):
@@ -229,7 +239,7 @@ class NodeWorld:
         self.world.shutdown()
 
     def thread_failures(self):
-        return [(t.name, t.kind, repr(t.exc)) for t in self.world.threads if t.exc is not None]
+        return [(t.name, t.kind, repr(t.exc)) for t in self.world.threads if t.exc is not None] + list(self.driver_failures)
 
 
 # ====================================================================== message menu
